@@ -14,6 +14,7 @@ func views() map[string]View {
 		"route":   newRouteView(),
 		"sdecode": sdecodeView{},
 		"cluster": clusterView{},
+		"authip":  authipView{},
 	}
 }
 
